@@ -567,3 +567,10 @@ func (e *Exec) regexOf(v Value) *regexObj {
 	r, _ := e.objs[fmt.Sprintf("regexp%p", p)].(*regexObj)
 	return r
 }
+
+func init() {
+	// command-line flag registration in package inits: irrelevant to every property
+	regPrefix("flag.", func(fr *frame, args []Value) Value { return fr.e.zeroResults(fr.fn) })
+	// context tracer methods are logging
+	regPrefix("(*github.com/safing/portbase/log.ContextTracer).", func(fr *frame, args []Value) Value { return fr.e.zeroResults(fr.fn) })
+}
